@@ -29,7 +29,7 @@ CORPORA = {
         dict(cid="s1", flags="\\Seen \\Answered", day=10, sent="Wed, 10 Jan 2024 22:15:00 -0800", frm="Alice Example <alice@example.com>", to="bob@example.org",
              subj="Quarterly REPORT attached", cc="carol@example.net", body="Please find the report.\r\nRegards, Alice\r\n"),
         dict(cid="s2", flags="\\Flagged kwone", day=11, sent="Thu, 11 Jan 2024 23:59:59 +0000", frm="bob@example.org", to="Alice <alice@example.com>",
-             subj="re: quarterly report", body="Thanks.\r\nNothing else.\r\n"),
+             subj="re: quarterly report", body="Thanks.\r\nNothing else.\r\n", xhdr="X-Empty:"),
         dict(cid="s3", flags="\\Deleted \\Draft", day=11, sent="Fri, 12 Jan 2024 01:30:00 +0500", frm="dave@example.com", to="list@example.com",
              subj="unrelated topic", bcc="hidden@example.com", body="A much longer body " + "x" * 300 + "\r\nswimming pool\r\n"),
         dict(cid="s4", flags="", day=12, sent=None, frm="eve@example.com", to="alice@example.com", subj="", body="no date header here\r\n"),
@@ -85,6 +85,7 @@ def atoms(facts):
     A += [("FROM", "alice"), ("FROM", "ALICE"), ("FROM", "example.com"), ("FROM", "nobody"), ("TO", "bob@example.org"), ("TO", "list"), ("CC", "carol"),
           ("CC", "x"), ("BCC", "hidden"), ("SUBJECT", "report"), ("SUBJECT", "REPORT"), ("SUBJECT", "quarterly report"), ("SUBJECT", "zzz"),
           ("HEADER", "X-Custom", "some"), ("HEADER", "x-custom", ""), ("HEADER", "Message-ID", "s3"), ("HEADER", "Date", "2024"), ("HEADER", "Nosuch", ""),
+          ("HEADER", "X-Empty", ""), ("HEADER", "x-empty", "x"), ("HEADER", "Cc", ""), ("HEADER", "Bcc", ""), ("SUBJECT", ""), ("CC", ""),
           ("BODY", "swim"), ("BODY", "Regards"), ("BODY", "report"), ("BODY", "cid="), ("TEXT", "swim"), ("TEXT", "example.org"), ("TEXT", "zzzz")]
     uids = [f["uid"] for f in facts]
     n = len(facts)
@@ -138,8 +139,8 @@ def get_facts(s, corpus):
         if m.get("bcc"):
             hdrs["bcc"] = [m["bcc"]]
         if m.get("xhdr"):
-            k, v = m["xhdr"].split(": ", 1)
-            hdrs[k.lower()] = [v]
+            k, _, v = m["xhdr"].partition(":")
+            hdrs[k.lower()] = [v.strip()]  # (a field may be present with an empty value)
         if m["frm"].startswith("=?"):
             hdrs["from"] = ["Fréd <fred@example.com>", m["frm"]]
         f["headers"] = hdrs
